@@ -265,6 +265,45 @@ Proof. intro H. rewrite gen_vec_from_ssz_bytes_eq by exact H. reflexivity. Qed.
 
 Theorem gen_vec_metadata : Gen.vec_dec_is_ssz_fixed_len = Ok false. Proof. reflexivity. Qed.
 
+
+(** ** the rest of [SszDecoderBuilder] and [SszDecoder] *)
+Theorem gen_builder_new_eq bs :
+  omap (fun s => (Gen.SszDecoderBuilder_bytes s, st_abs s)) (Gen.builder_new bs) = Ok (bs, builder_new).
+Proof. reflexivity. Qed.
+
+Theorem gen_builder_register_type_eq s f l :
+  omap (fun s' => (Gen.SszDecoderBuilder_bytes s', st_abs s')) (Gen.builder_register_type f l s)
+  = omap (fun st => (Gen.SszDecoderBuilder_bytes s, st)) (register (Gen.SszDecoderBuilder_bytes s) (st_abs s) f l).
+Proof.
+  unfold Gen.builder_register_type. rewrite <- gen_builder_register_eq.
+  destruct (Gen.builder_register s f l); reflexivity.
+Qed.
+
+Theorem gen_builder_build_eq s :
+  omap Gen.SszDecoder_items (Gen.builder_build s) = finalize (Gen.SszDecoderBuilder_bytes s) (st_abs s).
+Proof.
+  unfold Gen.builder_build. rewrite <- gen_builder_finalize_eq.
+  destruct (Gen.builder_finalize s); reflexivity.
+Qed.
+
+(** [decode_next_with(f)]: [f(self.items.remove(0))]; the slices are handed out in order *)
+Theorem gen_decoder_decode_next_with_eq {A} items (f : bytes -> outcome A) :
+  omap (fun p => (fst p, Gen.SszDecoder_items (snd p))) (Gen.decoder_decode_next_with {| Gen.SszDecoder_items := items |} f)
+  = decode_next items f.
+Proof.
+  unfold Gen.decoder_decode_next_with, decode_next, vec_remove. cbn [Gen.SszDecoder_items].
+  destruct items as [|s r]; [reflexivity|]. cbn [N.to_nat nth_error firstn skipn app bind fst snd].
+  destruct (f s); reflexivity.
+Qed.
+
+Theorem gen_decoder_decode_next_eq {A} items (d : bytes -> outcome A) :
+  omap (fun p => (fst p, Gen.SszDecoder_items (snd p))) (Gen.decoder_decode_next d {| Gen.SszDecoder_items := items |})
+  = decode_next items d.
+Proof.
+  unfold Gen.decoder_decode_next. rewrite <- gen_decoder_decode_next_with_eq.
+  destruct (Gen.decoder_decode_next_with _ _) as [[x s']| |]; reflexivity.
+Qed.
+
 (** The equivalences rest on no axioms. *)
 Print Assumptions gen_u64_from_ssz_bytes_eq.
 Print Assumptions gen_bool_from_ssz_bytes_eq.
@@ -275,3 +314,5 @@ Print Assumptions gen_array_from_ssz_bytes_eq.
 Print Assumptions gen_u256_from_ssz_bytes_eq.
 Print Assumptions gen_decode_list_vec_eq.
 Print Assumptions gen_vec_is_dec_TList.
+Print Assumptions gen_builder_build_eq.
+Print Assumptions gen_decoder_decode_next_eq.
